@@ -88,6 +88,7 @@ type Evid struct {
 	Rule         string
 	Assumptions  []string
 	evaluations  int
+	invocations  int
 	nontrivial   map[uint64]struct{}
 	classes      map[string]int
 	samples      []json.RawMessage
@@ -463,7 +464,7 @@ func RunProperty[C any](t *testing.T, p Property[C]) {
 
 	// 3. generated search
 	requested = rapidChecks()
-	before := ev.evaluations
+	before := ev.invocations
 	var lastFail struct {
 		set bool
 		c   C
@@ -473,6 +474,7 @@ func RunProperty[C any](t *testing.T, p Property[C]) {
 		rapid.Check(t, func(rt *rapid.T) {
 			c := p.Gen(rt)
 			fs, _ := ev.filterKnown(safeRun(p, c, ev))
+			ev.invocations++
 			if len(fs) > 0 {
 				lastFail.set, lastFail.c, lastFail.fs = true, c, fs
 				rt.Fatalf("%d finding(s); first: %s", len(fs), fs[0])
@@ -488,7 +490,7 @@ func RunProperty[C any](t *testing.T, p Property[C]) {
 		t.Fail()
 		return
 	}
-	if got := ev.evaluations - before; got < requested {
+	if got := ev.invocations - before; got < requested {
 		// rapid stops at the test deadline and still prints OK; fewer cases than requested is inconclusive
 		status = "short"
 		fmt.Printf("VERIF-SHORT property=%s evaluated=%d requested=%d\n", p.ID, got, requested)
